@@ -9,7 +9,7 @@ dst.mkdir(parents=True, exist_ok=True)
 shutil.copy(src / f"m{k}.diff", dst / "patch.diff")
 shutil.copy(src / f"m{k}_demo.py", dst / "demo.py")
 meta = json.loads((src / f"m{k}.json").read_text())
-meta["origin"] = "independent sub-agent (second round) given only the property text and its own worktree of /repo"
+meta["origin"] = "independent sub-agent (later round) given only the property text and its own worktree of /repo"
 meta["confirmed_by_me"] = confirmed
 meta["checks_result"] = caught
 (dst / "meta.json").write_text(json.dumps(meta, indent=1) + "\n")
